@@ -97,6 +97,10 @@ func runC04(c *ctx) {
 	c04case(c, "EPB", []c04rule{{"h", "/app/sub", "B", 0}, {"h", "/App", "P", 1}})
 	c04case(c, "EBP", []c04rule{{"h", "/app/sub", "B", 0}, {"h", "/App", "P", 1}})
 	c04case(c, "EPB", []c04rule{{"h", "/z/q", "P", 0}, {"h", "/z", "B", 1}, {"h", "/a/x/y", "B", 2}, {"h", "/a/x", "P", 3}, {"h", "/a/b", "P", 4}, {"h", "/a", "B", 5}, {"h", "/", "P", 6}})
+	// known finding: a declared path with an empty segment (`//`); HAProxy's map_dir strips every trailing `/`
+	c04case(c, "EPB", []c04rule{{"h", "/a//", "P", 0}, {"h", "/a/xy", "B", 1}})
+	c04case(c, "EPB", []c04rule{{"h", "/a//", "P", 0}, {"h", "/a/+x", "P", 1}})
+	c04case(c, "EPB", []c04rule{{"h", "/a///", "P", 0}, {"h", "/a/b", "P", 1}})
 	// exhaustive small scope: path alphabet closed under prefixes/sub-directories/case variants
 	alpha := []string{"/", "/a", "/a/", "/a/b", "/A", "/ab", "/a/b/c"}
 	types := []string{"E", "P", "B"}
